@@ -18,6 +18,19 @@ CLAIMS = {
          "unbounded): K never decreases, output <= reserve, share bound, mint-then-burn lemma, minimum liquidity bound. Partial: order-book fills "
          "(calculate*WithOrders) and the transaction-level crediting of the locked minimum liquidity are not under contract; see evidence 'uncovered'.",
          "contract-based deductive verification: WP/VC generation over go/ssa + SMT (z3/cvc5)", "DESIGN.md §5 C13"),
+ "C12": ("proof",
+         "The four formula.Calculate* functions are proved against spec functions for all supplies, reserves, ratios and amounts: zero amount, crr==100 integer path "
+         "(floor division), sell-all returns exactly the reserve, results non-negative and bounded by reserve/supply; on the float path the computed value equals "
+         "trunc of the Bancor expression with the right operands and exponent, modulo the A-REAL idealisation (big.Float arithmetic exact, math.Pow = real power with "
+         "four trusted axioms); monotonicity and buy-then-sell lemmas over the postcondition formulas. Not covered: the bounded relative error of Pow/Exp/Log "
+         "(math.Pow is a trusted contract).",
+         "contract-based deductive verification: WP/VC generation over go/ssa + SMT (z3/cvc5), reals idealised", "DESIGN.md §5 C12"),
+ "C20": ("proof",
+         "isApplicationHalted, isUpdateCommissionsBlockV2, isUpdateNetworkBlockV2 are proved (loop invariants over recursive support sums, unbounded vote lists) to take effect "
+         "iff 3*support > 2*totalPower for the best-supported proposal (first among equals wins); calculatePowers gives voting power exactly to present, not-dropped "
+         "validators and totals them; IsVoteExists/IsHaltExists (duplicate-vote gates) return true whenever the key occurs in the height's votes. "
+         "Partial: vote transactions' basicCheck (past heights) and the lazily loading getters (trusted representation axioms) are not proved.",
+         "contract-based deductive verification: WP/VC generation over go/ssa + SMT (z3/cvc5)", "DESIGN.md §5 C20"),
 }
 
 NA_REASON = {
